@@ -49,6 +49,7 @@ type totalityTable struct {
 	Panics    []reviewedItem    `json:"panics"`
 	Asserts   []reviewedItem    `json:"asserts"`
 	SCCs      []reviewedSCC     `json:"sccs"`
+	NilSpan   []reviewedItem    `json:"nil_span"`
 }
 
 func loadTotality() *totalityTable {
@@ -73,6 +74,7 @@ func loadTotality() *totalityTable {
 		t.Panics = append(t.Panics, part.Panics...)
 		t.Asserts = append(t.Asserts, part.Asserts...)
 		t.SCCs = append(t.SCCs, part.SCCs...)
+		t.NilSpan = append(t.NilSpan, part.NilSpan...)
 	}
 	return &t
 }
@@ -92,7 +94,7 @@ func checkC04(r *Report) {
 		"the guard-fact derivation in /verif/tools/facts.go (AST dominance by enclosing/preceding terminating conditions, invalidated by intervening assignments)",
 		"the reviewed invariants in /verif/tools/totality_table.json and totality_extra.json (kinds other than guard facts are argued in text and trusted)",
 		"go/types, go/ssa, VTA call graph")
-	r.Explain = "Obligations for 'every entry point returns a value or an error'. C04.1 BOUNDS: the obligation set is every index/slice bounds check the gc compiler's prove pass cannot remove in the in-scope packages (the compiler only analyses; nothing runs). Each site must fall in a function reviewed in totality_table.json, within that function's reviewed budget, and where the reviewed argument is a dominating test the required guard facts are re-derived from the syntax tree on every run (deleting the guard, or adding an unreviewed index expression, alarms). C04.2 PANICS: every explicit panic and every single-result type assertion in scope is enumerated and must be on the reviewed list. C04.3 PB-DEREF: a field read through a singular sub-message pointer of an API Requirements response must be dominated by a nil test (or use the nil-safe getter). C04.4 RECURSION: every non-trivial SCC of the in-scope call graph must carry a reviewed reason, re-checked where it has a shape: visited-map (recursive call dominated by a lookup-and-exit and an update of the same map), consumes-input (removing the calls dominated by a successful accept/HasPrefix of a non-empty literal leaves the SCC acyclic), ancestor-guard (a loop walking a parent chain with an error exit dominates the recursive call). C04.5 LOOP-BOUNDS: the four loop-bound constants still bound a monotone counter. C04.6 ENUM-INDEX: package-level tables indexed by an enumeration are as long as the enumeration. Not decided: termination of other loops, stack depth of recursion that is linear in the input size, memory exhaustion, panics inside the standard library or gRPC."
+	r.Explain = "Obligations for 'every entry point returns a value or an error'. C04.1 BOUNDS: the obligation set is every index/slice bounds check the gc compiler's prove pass cannot remove in the in-scope packages (the compiler only analyses; nothing runs). Each site must fall in a function reviewed in totality_table.json, within that function's reviewed budget, and where the reviewed argument is a dominating test the required guard facts are re-derived from the syntax tree on every run (deleting the guard, or adding an unreviewed index expression, alarms). C04.2 PANICS: every explicit panic and every single-result type assertion in scope is enumerated and must be on the reviewed list. C04.3 PB-DEREF: a field read through a singular sub-message pointer of an API Requirements response must be dominated by a nil test (or use the nil-safe getter). C04.4 RECURSION: every non-trivial SCC of the in-scope call graph must carry a reviewed reason, re-checked where it has a shape: visited-map (recursive call dominated by a lookup-and-exit and an update of the same map), consumes-input (removing the calls dominated by a successful accept/HasPrefix of a non-empty literal leaves the SCC acyclic), ancestor-guard (a loop walking a parent chain with an error exit dominates the recursive call). C04.5 LOOP-BOUNDS: the four loop-bound constants still bound a monotone counter. C04.6 ENUM-INDEX: package-level tables indexed by an enumeration are as long as the enumeration. C04.7 NIL-SPAN: in package semver an empty span carries nil bounds; every dereference (direct, or through a callee that dereferences its parameter without a nil test, computed to a fixpoint) of a *Version loaded from a span's min/max field is dominated by a test that excludes the empty span or nil, or is on a short reviewed list. Not decided: termination of other loops, stack depth of recursion that is linear in the input size, memory exhaustion, panics inside the standard library or gRPC."
 	r.Assume = []string{"values of named integer types are among their declared constants when they index a table (System values come from the package's own constants)", "protobuf-go never yields nil elements in repeated fields and RPC results are non-nil when err == nil"}
 
 	// ---- C04.1
@@ -249,6 +251,33 @@ func checkC04(r *Report) {
 	}
 	// ---- C04.6
 	enumIndexRule(r, p)
+	// ---- C04.7
+	okN, badN := nilSpanRule(p)
+	for i, f := range okN {
+		r.ok("C04.7/NIL-SPAN", fmt.Sprintf("%s: span.%s dereferenced by %s #%d", fnKey(f.fn), f.field, derefName(f.use), i+1), p.pos(f.use.Pos()), "dominated by a test that excludes the empty span (rank) or nil")
+	}
+	for i, f := range badN {
+		key := fmt.Sprintf("%s: span.%s dereferenced by %s #%d", fnKey(f.fn), f.field, derefName(f.use), i+1)
+		why := ""
+		for _, it := range tab.NilSpan {
+			if it.Fn == fnKey(f.fn) && strings.Contains(derefName(f.use), it.Text) {
+				why = it.Why
+			}
+		}
+		if why != "" {
+			r.ok("C04.7/NIL-SPAN", key, p.pos(f.use.Pos()), "reviewed: "+why)
+		} else {
+			r.bad("C04.7/NIL-SPAN", key, p.pos(f.use.Pos()), "a *Version loaded from a span's "+f.field+" field is dereferenced here (directly or by the callee) with no dominating test that the span is not the empty span: empty spans carry nil bounds, so this panics for an empty operand")
+		}
+	}
+	r.floor("C04.7/NIL-SPAN", "dereferences of span.min/max in package semver", len(okN)+len(badN), 15)
+}
+
+func derefName(in ssa.Instruction) string {
+	if n := staticCalleeName(in); n != "" {
+		return n
+	}
+	return "field access"
 }
 
 // panicsAndAsserts enumerates explicit panics and unchecked type assertions.
